@@ -47,6 +47,9 @@ struct Opt_stable_linked_nokey : Simplex_tree_options_default {
   static const bool link_nodes_by_label = true;
   static const bool stable_simplex_handles = true;
 };
+struct Opt_float : Simplex_tree_options_default {
+  typedef float Filtration_value;
+};
 struct Opt_data_linked : Simplex_tree_options_full_featured {     // heap-owning per-simplex data
   typedef std::vector<int> Simplex_data;
 };
@@ -67,6 +70,8 @@ typedef Opt_flat_linked Opt; static const char* OPTNAME = "flat_linked";
 typedef Opt_stable_unlinked Opt; static const char* OPTNAME = "stable_unlinked";
 #elif OPTSET == 6
 typedef Opt_stable_linked_nokey Opt; static const char* OPTNAME = "stable_linked_nokey";
+#elif OPTSET == 7
+typedef Opt_float Opt; static const char* OPTNAME = "float_values";
 #elif OPTSET == 8
 typedef Opt_data_linked Opt; static const char* OPTNAME = "data_linked";
 #elif OPTSET == 9
